@@ -172,6 +172,16 @@ CHECKS = {
         "body exactly once per argument tuple / terminal size under 2..16 simultaneous first calls with line-level yield injection.",
         note="Trusts the freshness model in vf/checks/c15.py and CPython's sys.monitoring for yield injection; AutoCellRatio.is_supported is taken as the library decides it at first use.",
     ),
+    "C14": dict(
+        level="exploration",
+        technique="runtime monitor: offline overlap sweep over [enter, exit] interval logs of lock_tty-decorated probes from every thread and process of real multiprocessing trees (fork/spawn/forkserver) under a pty; id-echoing queries; hand-over delay and line-level yield injection",
+        text="Each run is a fresh process tree (threads x children x grandchildren, Process.start() at random moments while other threads "
+        "hammer probes and queries, delays injected around the lock hand-over and inside the wrappers): no two synchronized intervals of "
+        "different threads/processes may overlap (one system-wide monotonic clock, stamps taken inside the body), every query must get "
+        "exactly its own reply, nested calls must not block; hangs in >= 3 independent runs are a reproducible-hang violation, fewer are "
+        "inconclusive.",
+        note="The process-target module imports term_image at module level (a spawn/forkserver child can only receive the lock if the library is imported before Process.run()); schedules are sampled, not enumerated.",
+    ),
 }
 
 NOT_APPLICABLE = {
